@@ -445,7 +445,7 @@ def run_B(rep, tier):
     with open(script, "w") as f:
         f.write(IR_SCRIPT)
     e = env.child_env()
-    e["PYTHONPATH"] = ""
+    e["PYTHONPATH"] = env.plain_pythonpath()
     r = _sp.run([env.PLAIN_PY, script, _os.path.join(env.REPO, "src/basilisp/core.lpy")], env=e, capture_output=True, text=True, timeout=300)
     if r.returncode != 0 or "def mod" not in r.stdout:
         raise env.HarnessError("cannot capture the compiler IR of the arithmetic functions: " + r.stderr[-800:])
